@@ -73,3 +73,32 @@ claim(
     'completion predicate has an end-of-input rejection. Does not decide regex backtracking or instantiation success beyond reserved names.',
     'DESIGN.md 4 C13',
 )
+claim(
+    'C14',
+    'loop-carried dataflow, module-level write detection over the parser call graph, regex-AST whitespace facts, ordered normalisation passes',
+    'Thin by nature (metamorphic over all programs x layouts). Decides: parse_equation receives the current statement alone and no '
+    'function in the parser call graph writes module-level or nonlocal state (statements are parsed independently; merge = left fold of '
+    'C03.R6); comments stripped from every physical line, blank statements skipped; optional whitespace inside braces, angle brackets, '
+    'index brackets and before `(` (term_re AST); the three template normalisation passes exist, whitespace collapse first, before '
+    'format(); explicit [0] = no index. Does not decide equality of parses under every whitespace insertion nor idempotence of the normal form.',
+    'DESIGN.md 4 C14',
+)
+claim(
+    'C15',
+    'template twin AST equality modulo annotations, field-set agreement, exec provenance by CFG reachability, forwarding table',
+    'Decides: typed and untyped templates are the same class after erasing annotations; both use the same fields and format() supplies '
+    'exactly them; build_model forwards all six options unchanged, the exec of the full text dominates the return, no other exec and no '
+    'handler of that exec can reach the return, CODE is the executed text; the converter is applied once per endogenous/verbatim symbol '
+    'with equation and code, its output only indented and joined, default converter iff None, empty block -> pass. Does not decide '
+    'behavioural identity on data.',
+    'DESIGN.md 4 C15',
+)
+claim(
+    'C20',
+    'same-object tokeniser identity, split agreement, edge direction from loop provenance',
+    'Thin. Decides: symbols_to_graph uses the term_re imported from the parser (no private regex), splits at the first `=`, adds the '
+    'left-hand terms as nodes carrying the equation and an edge from every right-hand term to every left-hand term in a DiGraph; '
+    'with C01.R3 (same template, same term list for equation and code) the right-hand terms of the normalised equation are the series '
+    'elements the statement reads. Does not decide the perturbation semantics.',
+    'DESIGN.md 4 C20',
+)
